@@ -68,12 +68,12 @@ enum class OffsetType : uint8_t {
 
   //! AArch32 THUMBv2 immediate encoding of 'B' instruction with `<cond>` (20-bit immediate payload, multiplied by 2).
   //!
-  //!   `|.....|imm[19]|....|imm[16:11]|..|ja|1|jb|imm[10:0]`
+  //!   `|.....|imm[19]|....|imm[16:11]|..|ja|0|jb|imm[10:0]`
   //!
   //! Where:
   //!
-  //!   - `ja` is calculated as imm[19] ^ imm[18] ^ 1.
-  //!   - `jb` is calculated as imm[19] ^ imm[17] ^ 1.
+  //!   - `ja` is imm[17].
+  //!   - `jb` is imm[18].
   kThumb32_BCond,
 
   // AArch32 Specific Offset Formats (A32)
